@@ -426,7 +426,65 @@ def sc_preset(r):
     return ops
 
 
-SCENARIOS = [sc_replace_cc, sc_stale_fetch, sc_dual_exhaust, sc_faults, sc_cc_retry, sc_restart, sc_cursor, sc_labels, sc_service, sc_preset]
+def sc_terminating_overlap(r):
+    """two overlapping ClusterCIDRs exist; nodes hold blocks of the preferred one; it is deleted (stays terminating) or the
+    controller restarts; further nodes -- known before those blocks were written, so the informer cache may still lack
+    them -- are then served from the other ClusterCIDR, which never saw those blocks itself"""
+    (a, l, h1), (b, m, h2) = _overlapping_v4(r)
+    ops = ["cc+ c1 %s - %d zone:In:a;tier:Exists: - 1 1" % (tok4(a, l), h1), "cc+ c2 %s - %d %s - 1 2" % (tok4(b, m), h2, r.choice(["-", "zone:In:a"])),
+           "dc", "dc", "pc ok", "pc ok", "dc", "dc"]
+    k = r.randint(1, 3)
+    for i in range(1, 6):
+        ops += ["n+ n%d %s -" % (i, "zone=a,tier=x" if i <= k else "zone=a")]
+    ops += ["dn"] * 5 + ["pn ok"] * k
+    ops += ["dn"] * r.choice([0, 0, 1, k])          # the informer often lags behind the controller's own writes
+    ops += ["cc- c1", "dc", "pc ok", "pc ok"]
+    if r.random() < 0.3:
+        ops += ["crash", "construct - - -", "start", "pc ok", "pc ok"]
+    ops += ["pn ok"] * 5
+    if r.random() < 0.5:
+        ops += ["dn"] * 5 + ["n- n1", "dn", "tick", "pc ok", "dc", "pc ok", "n+ n1 zone=a -", "dn", "pn ok"]
+    return ops
+
+
+def sc_dual_blocked(r):
+    """a dual-stack ClusterCIDR whose IPv6 blocks are all taken through ANOTHER ClusterCIDR over the same IPv6 range (its own
+    IPv6 pool counts nothing used): nodes it selects get an IPv4 block reserved and then find no IPv6 block"""
+    a, l = r.choice([(0x0a000000, 26), (0x0a000100, 27), (0xc0a80000, 28)])
+    l6 = r.choice([124, 124, 123])
+    v6 = mask("v6", (0xfd000000 << 96) + 0x20 * r.randrange(4), l6)
+    ops = ["cc+ c1 %s %s 4 zone:In:a - 1 1" % (tok4(a, l), tok6(v6, l6)), "cc+ c3 - %s 4 %s - 1 2" % (tok6(v6, l6), r.choice(["-", "zone:In:b"])),
+           "dc", "dc", "pc ok", "pc ok", "dc", "dc", "pc ok", "pc ok"]
+    nb = 1 << (124 - l6)
+    for i in range(1, nb + 1):
+        ops += ["n+ n%d zone=b -" % i, "dn", "pn ok", "dn", "pn ok"]
+    for i in range(nb + 1, 6):
+        ops += ["n+ n%d zone=a -" % i, "dn", "pn ok", "tick", "pn ok"]
+    if r.random() < 0.5:
+        ops += ["n- n1", "dn", "tick", "pn ok", "pn ok", "dn", "pn ok"]
+    return ops
+
+
+def sc_bootstrap_unfinalized(r):
+    """a ClusterCIDR created while the controller was down is mapped at start-up although the write adding the finalizer
+    failed; nodes are served from it; the finalizer is added later by the ordinary create path, which must keep the pools"""
+    (a, l, h1), (b, m, h2) = _overlapping_v4(r)
+    sel, good, bad = _rng_sel_and_labels(r)
+    ops = ["cc+ c1 %s - %d %s %s 1 1" % (tok4(a, l), h1, sel, r.choice(["-", "other.io/f"]))]
+    if r.random() < 0.5:
+        ops += ["n+ n1 %s %s" % (good, tok4(a + (1 << h1) * r.randrange(1 << (32 - h1 - l)), 32 - h1))]
+    else:
+        ops += ["n+ n1 %s -" % good]
+    ops += ["n+ n2 %s -" % good, "construct - - " + r.choice(["fail", "aerr", "fail", "ok"]), "start"]
+    ops += r.choice([["pn ok", "pn ok", "pc ok"], ["pn ok", "pc fail", "pn ok", "tick", "pc ok"], ["pc fail", "pn ok", "pn ok", "tick", "pc ok"]])
+    ops += ["dc", "pc ok"]
+    more = ["n+ n3 %s -" % good, "n+ n4 %s -" % good, "dn", "dn", "dn", "dn", "pn ok", "pn ok", "pn ok", "pn ok"]
+    gone = ["cc- c1", "dc", "dc", "pc ok", "pc ok", "n- n2", "dn", "dn", "dn", "dn", "dn", "tick", "pc ok"]
+    ops += r.choice([more, gone, more + gone, gone + more])
+    return ops
+
+
+SCENARIOS = [sc_replace_cc, sc_stale_fetch, sc_dual_exhaust, sc_faults, sc_cc_retry, sc_restart, sc_cursor, sc_labels, sc_service, sc_preset, sc_terminating_overlap, sc_dual_blocked, sc_bootstrap_unfinalized]
 
 
 def noise_op(r):
